@@ -120,7 +120,8 @@ deriving DecidableEq, Repr, Inhabited
 
 inductive Origin where
   | ack
-  | caller (c : Nat)
+  /-- request of caller `c`; `internal` = issued by negotiate() -/
+  | caller (c : Nat) (internal : Bool)
 deriving DecidableEq, Repr, Inhabited
 
 /-- a frame on the wire with its ghost annotations -/
@@ -407,10 +408,10 @@ def eff (s : St) : Act → St
     let f : Frame := { typ := x.typ, id := s.nextId, pay := x.pay }
     if x.nowait then
       { setC s c { x with pc := .done .sent, wid := some s.nextId } with
-        nextId := s.nextId + 1, wr := .writing f (.caller c) }
+        nextId := s.nextId + 1, wr := .writing f (.caller c x.internal) }
     else
       { setC s c { x with pc := .waitToken s.nextId, wid := some s.nextId } with
-        nextId := s.nextId + 1, awaiting := (s.nextId, c) :: s.awaiting, wr := .writing f (.caller c) }
+        nextId := s.nextId + 1, awaiting := (s.nextId, c) :: s.awaiting, wr := .writing f (.caller c x.internal) }
   | .wrWrite => match s.wr with
     | .writing f o => { s with written := s.written ++ [⟨f, o, s.negotiated⟩],
                                wr := if f.typ = tCloseConnection then .parked else .idle }
